@@ -196,6 +196,8 @@ def specOfE (e : Text × XLCell) : CellSpec := ⟨e.1, e.2.value, e.2.formula.ma
 /-- the hypotheses under which the abstract workbook is a SpreadsheetML file inside the statement. -/
 def SheetWF (sh : Sheet) : Prop := scanOK sh.cells = true ∧ sharedOK [] sh.cells = true ∧ textOK sh.cells = true
 
+instance (sh : Sheet) : Decidable (SheetWF sh) := by unfold SheetWF; infer_instance
+
 theorem sheet_refine (sst : List Text) (sh : Sheet) (h : SheetWF sh) :
     (sheetEntries sst sh).map specOfE = Spec.C11.sheetCells sst sh := by
   have := sheet_refine_aux sst sh.name sh.cells h.1 sh.cells [] [] rfl tableInv_nil h.2.1 h.2.2
